@@ -23,7 +23,8 @@ from . import common, evalfam, materialize as mat, oracles, replay, shapes as sh
 from .common import MachineryError, Report
 from .shapes import Shape
 
-PLANS = [["eval", "edit", "eval", "revert", "eval"], ["eval2", "eval"], ["evalB", "eval"]]
+PLANS = [["eval", "edit", "eval", "revert", "eval"], ["eval", "edit", "eval", "restart", "eval"], ["eval2", "eval"],
+         ["evalB", "eval"]]
 
 
 def environments(tier: str) -> List[Dict[str, Any]]:
@@ -136,7 +137,8 @@ def _cells_child(shape: Shape, hist: List[Dict[str, Any]], root: str, env: Dict[
         for v in shape.vars:
             src = "%s = %s\n" % (v, mat.var_value_src(shape, v, prog["vval"][v]))
             if cur.get("var:" + v) != src:
-                run(src)
+                inpl = mat.var_inplace_stmt(shape, v, prog["vval"][v])
+                run((inpl + "\n") if (inpl and ("var:" + v) in cur) else src)
                 cur["var:" + v] = src
         for f in reversed(shape.funs):      # callees first
             src = "\n".join(mat._fun_src(shape, f, prog, names)) + "\n"
@@ -224,7 +226,7 @@ def _corpus_task(a) -> Dict[str, Dict[str, str]]:
 def run_c03(tier: str) -> int:
     rep = Report("C03", tier)
     evalfam.import_dds()
-    S = [s for s in shp.core_shapes()] + shp.vtype_shapes(["bool", "dict"]) + [s for s in shp.load_shapes() if s.name in ("ld_df", "ld_earlier")]
+    S = [s for s in shp.core_shapes()] + shp.vtype_shapes(["bool", "dict", "tuplelist"]) + [s for s in shp.load_shapes() if s.name in ("ld_df", "ld_earlier")]
     r = evalfam.tlc_design(S, PLANS, 1, "memory", "cells", ["one"], name="design03")
     rep.cov["states"] = r.distinct
     rep.cov["transitions"] = r.generated
@@ -239,7 +241,14 @@ def run_c03(tier: str) -> int:
             continue
         items.append((byname[h["shape"]], h["hist"]))
     if tier == "quick":
-        items = items[:: max(1, len(items) // 30)]
+        # stratified: a few histories per shape, in-process variable edits first
+        per: Dict[str, List[Any]] = {}
+        for it in items:
+            per.setdefault(it[0].name, []).append(it)
+        items = []
+        for (name, its) in sorted(per.items()):
+            its.sort(key=lambda x: 0 if any(r["op"] == "edit" and r["kind"] == "var" for r in x[1]) else 1)
+            items += its[:4]
     envs = environments(tier)
     base = common.sub_scratch("envs")
     tasks = []
